@@ -170,7 +170,9 @@ func Class(err error) string {
 	case errors.Is(err, hackpadfs.ErrPermission):
 		return "ErrPermission"
 	case errors.Is(err, io.EOF):
-		return "EOF"
+		// io.Reader, io.ReaderAt and fs.ReadDirFile promise io.EOF itself (callers compare with ==; io.ReadAll, io.Copy and
+		// bufio do): an error that merely wraps it is a different answer
+		return "wrapped-EOF"
 	}
 	return "other"
 }
